@@ -14,7 +14,7 @@ const KINDS: &[&str] = &[
     "iter_sized",
     "iter_unsized",
     "bytes",
-];
+ "str_ascii_heap", "str_multibyte_heap", "str_multibyte_safe"];
 const ASCII: &[char] = &['a', 'b', 'c', 'd', 'e', 'f'];
 const MULTI: &[char] = &['a', 'é', '☃', '😀', 'b', 'ç'];
 
@@ -73,6 +73,11 @@ fn make_value(kind: &str, len: usize) -> Value {
     match kind {
         "str_ascii" => Value::from(ASCII[..len].iter().collect::<String>()),
         "str_multibyte" => Value::from(MULTI[..len].iter().collect::<String>()),
+        // the same texts in the heap representation (shared string, safe string): short strings built
+        // from &str are stored inline, so these are a different code path for lengths <= 6
+        "str_ascii_heap" => Value::from(std::sync::Arc::<str>::from(ASCII[..len].iter().collect::<String>())),
+        "str_multibyte_heap" => Value::from(std::sync::Arc::<str>::from(MULTI[..len].iter().collect::<String>())),
+        "str_multibyte_safe" => Value::from_safe_string(MULTI[..len].iter().collect::<String>()),
         "list" => Value::from(ints()),
         "tuple" => Value::from(Tuple::from(ints())),
         "iter_sized" => Value::make_iterable(move || 0..len as i64),
@@ -138,8 +143,8 @@ impl Case {
 fn expected_check(kind: &str, len: usize, idx: &[usize], got: &Value) -> Result<(), (String, String)> {
     // returns Err((class, detail))
     match kind {
-        "str_ascii" | "str_multibyte" => {
-            let src = if kind == "str_ascii" { ASCII } else { MULTI };
+        k if k.starts_with("str_") => {
+            let src = if kind.starts_with("str_ascii") { ASCII } else { MULTI };
             let exp: String = idx.iter().map(|&i| src[..len][i]).collect();
             match got.as_str() {
                 Some(s) if got.kind() == minijinja::value::ValueKind::String => {
@@ -303,8 +308,8 @@ fn run_subscript(env: &Environment, kind_i: usize, len: usize, i: i64, variable_
     }
     let pos = pos as usize;
     let ok = match kind {
-        "str_ascii" => got.as_str() == Some(&ASCII[pos].to_string()),
-        "str_multibyte" => got.as_str() == Some(&MULTI[pos].to_string()),
+        k if k.starts_with("str_ascii") => got.as_str() == Some(&ASCII[pos].to_string()),
+        k if k.starts_with("str_multibyte") => got.as_str() == Some(&MULTI[pos].to_string()),
         "bytes" => got.as_i64() == Some(pos as i64 + 65),
         _ => got.as_i64() == Some(pos as i64),
     };
@@ -430,7 +435,7 @@ pub fn main(args: Args) -> i32 {
             level: "exploration",
             tier: args.tier,
             seed: args.seed,
-            rule: "complete box: 7 kinds x len 0..=6 x start,stop in {omitted}U[-9,9]U{i64::MIN,i64::MAX} x step in {omitted}U[-4,4]U{i64::MIN,i64::MAX} x {literal, variable} operand form, plus subscripts v[i] for i in [-9,9]U{i64::MIN,i64::MAX}; oracle = CPython PySlice_AdjustIndices transcribed on i128 + result-kind rule; a case is distinct non-trivial when it selects a non-empty index list, keyed by (kind,len,selected indices)".into(),
+            rule: "complete box: 10 kinds (ASCII and multi-byte strings in inline, shared-heap and safe-string storage, list, tuple, sized and unsized lazy iterables, bytes) x len 0..=6 x start,stop in {omitted}U[-9,9]U{i64::MIN,i64::MAX} x step in {omitted}U[-4,4]U{i64::MIN,i64::MAX} x {literal, variable} operand form, plus subscripts v[i] for i in [-9,9]U{i64::MIN,i64::MAX}; oracle = CPython PySlice_AdjustIndices transcribed on i128 + result-kind rule; a case is distinct non-trivial when it selects a non-empty index list, keyed by (kind,len,selected indices)".into(),
             exhaustive: true,
             bound: json!({"kinds": KINDS, "len": "0..=6", "start_stop": "omitted, -9..=9, i64::MIN, i64::MAX", "step": "omitted, -4..=4, i64::MIN, i64::MAX"}),
             assumptions: vec![
